@@ -322,6 +322,10 @@ def run(run, rng):
             # several distinct unsupported structures (e-mail, website, e-mail + digits ...) and several tied counts
             case['items'] = case['items'][:4] + [[e, 1] for e in trainlists.EMAILS[:2] + trainlists.SITES[:2]] + [['bob@gmail.com123', 1], ['!www.google.com', 1], ['x@y.org!', 1]]
             case['items'] = [[p, k] for p, k in case['items'] if trainlists.encodable(p, case['encoding'])]
+        if i % 8 == 5:
+            # several distinct values of one category and one length of 32 and more characters (long numbers, rows of symbols)
+            d = lambda n: ''.join(rng.choice('0123456789') for _ in range(n))
+            case['items'] += [[d(36), 3], [d(36), 2], [d(36), 1], ['!' * 33, 2], ['#' * 33, 1], ['ab' + d(40), 1], ['cd' + d(40), 1]]
         run.guard(case, check_case, det=det, seconds=240)
     for i in range(3 if run.tier == 'quick' else 40):
         run.guard(gen_retrain_case(rng), check_retrain, seconds=240)
